@@ -333,7 +333,7 @@ def slices(quick):
     ALL = dict(Files='{"j1", "j2", "p"}', JobFiles='{"j1", "j2"}')
     s = [
         ("dict", dict(J1, NHJob=2, Ops="<- OpsDict", Vals="<- VTypes", NVals="<- NVTypes", MapArgs="<- MapsSmall", MaxLevel=3 if quick else 4), 0.06 if quick else 0.03),
-        ("struct", dict(J1, NHJob=1, Ops='{"set", "nset", "append", "lset", "get", "read", "pop", "setdefault"}', Vals="<- VStruct", NVals="<- NVTypes",
+        ("struct", dict(J1, NHJob=1, Ops='{"set", "nset", "append", "lset", "get", "read"}', Vals="<- VStruct", NVals="<- NVTypes",
                         MapArgs="<- MapsSmall", MaxLevel=4 if quick else 5), 0.03),
         ("buffer", dict(J1P, NHJob=2, NHProj=1, Ops="<- OpsBuf", Vals="<- VOne", NVals="<- VOne", MapArgs="<- MapsSmall", Caps="<- CapsAll",
                         MaxLevel=4 if quick else 5), 0.08 if quick else 0.04),
